@@ -27,6 +27,8 @@ inductive Op
   | pump (o : Outcome)                     -- one RecocoIOLoop iteration in which the worker is reported writable
   /-- one iteration in which the worker is reported readable AND writable: `_do_recv` runs first (`rx`), then `_do_send` -/
   | pumpRW (rx : Rx) (o : Outcome)
+  /-- `IOWorker.shutdown(send=True)` (= `OFConnection.close`): "finish writing, then shut the socket down for writing" -/
+  | shutdown
   deriving Repr
 
 structure St where
@@ -42,39 +44,57 @@ structure St where
   /-- configuration, constant: does `_do_send` test `self.closed` first (repair C20-2)?  Without the test a worker that
       `_do_recv` closed earlier in the same pass is still offered to the socket. -/
   guardClosed : Bool := true
+  shutReq : Bool := false       -- `_shutdown_send`
+  /-- ghost: one entry per `socket.shutdown(SHUT_WR)` call: what the socket had accepted and what had been queued, then -/
+  shutLog : List (Bytes × Bytes) := []
+  /-- ghost: at some moment since `shutdown(send)` was requested there was unwritten data -/
+  pendSinceReq : Bool := false
+
+/-- the outcome the socket really gives: once it has been shut down for writing it refuses every write (assumed OS fact,
+    as for `disc` in part B) -/
+def St.eff (s : St) (o : Outcome) : Outcome := if s.shutLog.isEmpty then o else .fatal
+
+/-- `if self._shutdown_send and len(self.send_buf) == 0: self.socket.shutdown(socket.SHUT_WR)` after a write that made progress -/
+def St.afterWrite (s : St) : St :=
+  if s.shutReq ∧ s.sendBuf.length = 0 then { s with shutLog := s.shutLog ++ [(s.accepted, s.queued)] } else s
+
+/-- the `socket.send` call is made: bookkeeping of the ghosts -/
+def St.offer (s : St) : St :=
+  { s with offered := s.offered + 1, offeredAfterClose := s.offeredAfterClose + (if s.closed then 1 else 0) }
+
+/-- the socket took the first `k > 0` bytes of the send buffer: `_consume_send_buf(l)`, then the shutdown test -/
+def St.took (s : St) (k : Nat) : St :=
+  St.afterWrite { s with sendBuf := s.sendBuf.drop k, accepted := s.accepted ++ s.sendBuf.take k }
+
+/-- `close()` (idempotent: a second close reports nothing) -/
+def St.fail (s : St) : St :=
+  { s with closed := true, closeEvents := s.closeEvents + (if s.closed then 0 else 1) }
+
+/-- `l = self.socket.send(self.send_buf)` on a non-empty buffer and what follows it in `_do_send`: the bookkeeping of what
+    the socket took, the shutdown-for-writing once a requested shutdown finds the buffer drained, `close()` on a fatal error -/
+def writeBuf (s : St) (o : Outcome) : St :=
+  let s := s.offer
+  match s.eff o with
+  | .accept k => if min k s.sendBuf.length = 0 then s else s.took (min k s.sendBuf.length)
+  | .again => s
+  | .fatal => s.fail
 
 def doSend (s : St) (o : Outcome) : St :=
-  if s.closed then s                                   -- discarded from the loop: `_do_send` is no longer called
+  if s.closed then s                                   -- discarded from the loop / `if self.closed: return` (repair C20-2)
   else if s.sendBuf.length = 0 then s                  -- not in the write set / `if len(self.send_buf):`
-  else
-    let s := { s with offered := s.offered + 1, offeredAfterClose := s.offeredAfterClose + (if s.closed then 1 else 0) }
-    match o with
-    | .accept k =>
-      let k := min k s.sendBuf.length
-      if k = 0 then s else
-      { s with sendBuf := s.sendBuf.drop k, accepted := s.accepted ++ s.sendBuf.take k }
-    | .again => s
-    | .fatal => { s with closed := true, closeEvents := s.closeEvents + 1 }
+  else writeBuf s o
 
-/-- `_do_send` called on a worker whatever its state: the `socket.send` call, the bookkeeping of what it took, and
-    `close()` (idempotent: a second close reports nothing) on a fatal error -/
+/-- `_do_send` called on a worker whatever its state (the code before repair C20-2) -/
 def doSendRaw (s : St) (o : Outcome) : St :=
-  if s.sendBuf.length = 0 then s else
-  let s := { s with offered := s.offered + 1, offeredAfterClose := s.offeredAfterClose + (if s.closed then 1 else 0) }
-  match o with
-  | .accept k =>
-    let k := min k s.sendBuf.length
-    if k = 0 then s else
-    { s with sendBuf := s.sendBuf.drop k, accepted := s.accepted ++ s.sendBuf.take k }
-  | .again => s
-  | .fatal => { s with closed := true, closeEvents := s.closeEvents + (if s.closed then 0 else 1) }
+  if s.sendBuf.length = 0 then s else writeBuf s o
 
 /-- `_do_recv`: end of stream or a socket error closes the worker (once) -/
 def doRecv (s : St) : Rx → St
   | .data => s
   | _ => if s.closed then s else { s with closed := true, closeEvents := s.closeEvents + 1 }
 
-def step (s : St) : Op → St
+def step0 (s : St) : Op → St
+  | .shutdown => { s with shutReq := true }
   | .send d => { s with sendBuf := s.sendBuf ++ d, queued := s.queued ++ d }     -- send() never looks at `closed`
   | .pump o => doSend s o
   | .pumpRW rx o =>
@@ -83,8 +103,8 @@ def step (s : St) : Op → St
     else doSendRaw (doRecv s rx) o                      -- unrepaired: the write set was computed before `_do_recv` ran
   | .sendFast d o =>
     if s.sendBuf.length = 0 ∧ ¬ s.closed then
-      let s := { s with offered := s.offered + 1, offeredAfterClose := s.offeredAfterClose + (if s.closed then 1 else 0) }
-      match o with
+      let s := s.offer
+      match s.eff o with
       | .accept k =>
         let k := min k d.length
         if k = d.length then { s with accepted := s.accepted ++ d, queued := s.queued ++ d }
@@ -92,6 +112,11 @@ def step (s : St) : Op → St
       | .again => { s with sendBuf := s.sendBuf ++ d, queued := s.queued ++ d }
       | .fatal => { s with closed := true, closeEvents := s.closeEvents + 1, dropped := s.dropped + 1 }
     else { s with sendBuf := s.sendBuf ++ d, queued := s.queued ++ d }
+
+/-- one operation, then the ghost `pendSinceReq` is brought up to date -/
+def step (s : St) (op : Op) : St :=
+  let t := step0 s op
+  { t with pendSinceReq := t.pendSinceReq || (t.shutReq && !t.sendBuf.isEmpty) }
 
 def run (ops : List Op) : St := ops.foldl step {}
 
